@@ -1361,8 +1361,8 @@ fn wdl_case(c: &mut Case, s: &WdlSpec, rng: &mut Rng) {
 fn main() {
     let mut run = Run::new();
     let thorough = run.args.thorough();
-    let n_wdt: u64 = if thorough { 16000 } else { 400 };
-    let n_wdl: u64 = if thorough { 9000 } else { 150 };
+    let n_wdt: u64 = if thorough { 16000 } else { 1600 };
+    let n_wdl: u64 = if thorough { 9000 } else { 500 };
     let mut idx = 0u64;
     for clause in ["corner", "centre", "range"] {
         run.case(idx, &format!("coord|{clause}"), json!({"what": format!("all 64x64 tiles, clause {clause}")}), |c| coord_case(c, clause));
